@@ -150,6 +150,7 @@ class Canon:
             self.if_assign(body)
             self.mem_replace(body)
             self.while_loops(body)
+            self.fold_tuple_loops(body)
             self.fold_loops(body)
             self.collect_loops(body)
             self.iter_loops(body)
@@ -1076,6 +1077,134 @@ class Canon:
                 blk["stmts"] = [s_ for s_ in st if not s_.get("canon_dead")]
 
     # ------------------------------------------------------------------ P7
+    def fold_tuple_loops(self, body):
+        """`let (a, b) = SRC.fold((i0, i1), |(x, y), P| e);`  ->  `let mut a = i0; let mut b = i1; for P in SRC { <(a, b) = e> }` where the
+        tuple-valued body (a tuple, an if/else of tuples, a block ending in one, or the accumulator itself) becomes
+        component assignments; an identity component (`x` kept) is dropped.  The accumulator parameter may also be a
+        plain binding used through `.0` / `.1`.  Refused when a later component reads an earlier assigned one."""
+        for blk in [n for n in _walk(body) if n.get("k") == "Block"]:
+            out, changed = [], False
+            for st in blk.get("stmts", []):
+                res = self._fold_tuple_stmt(st)
+                if res is None:
+                    out.append(st)
+                else:
+                    out.extend(res)
+                    changed = True
+            if changed:
+                blk["stmts"] = out
+
+    def _fold_tuple_stmt(self, st):
+        if st.get("k") != "Let" or st.get("init") is None or st["pat"].get("k") != "Tuple":
+            return None
+        pats = st["pat"].get("ps", [])
+        if not pats or not all(q.get("k") in ("Bind", "Wild") and not q.get("byref") for q in pats):
+            return None
+        x = _strip(st["init"])
+        if not (x.get("k") == "MethodCall" and x.get("name") == "fold" and x.get("fn") == "std::iter::Iterator::fold" and len(x.get("args", [])) == 2):
+            return None
+        init = _strip(x["args"][0])
+        cl = _strip(x["args"][1])
+        if init.get("k") != "Tup" or len(init.get("es", [])) != len(pats) or cl.get("k") != "Closure" or len(cl.get("params", [])) != 2:
+            return None
+        if any(y.get("k") in ("Ret", "Try") for y in _walk(cl["body"])):
+            return None
+        if any(y.get("k") in ("Assign", "AssignOp", "Closure", "Ret", "Try") or (y.get("k") == "AddrOf" and y.get("mut")) or str(y.get("adj") or "").startswith("&mut") for e_ in init["es"] for y in _walk(e_)):
+            return None                     # the initial values only read (they are evaluated before the source iterator is built)
+        n = len(pats)
+        sp = st.get("sp") or x.get("sp") or [0, 0, 0, 0]
+        # target variables
+        tv = []
+        for q in pats:
+            if q.get("k") == "Bind":
+                tv.append((q["v"], q.get("name"), q.get("ty")))
+            else:
+                self.fresh += 1
+                tv.append((self.fresh, "__acc%d" % self.fresh, q.get("ty")))
+        accp = cl["params"][0]
+        bodye = cl["body"]
+
+        def local(k, spx):
+            v, name, ty = tv[k]
+            return {"k": "Local", "v": v, "name": name, "id": self._id(), "ty": ty, "sp": list(spx)}
+        whole_acc = None
+        if accp.get("k") == "Tuple" and len(accp.get("ps", [])) == n and all(q.get("k") in ("Bind", "Wild") for q in accp["ps"]):
+            ren = {q["v"]: k for k, q in enumerate(accp["ps"]) if q.get("k") == "Bind"}
+            for u in [y for y in _walk(bodye) if y.get("k") == "Local" and y.get("v") in ren]:
+                k = ren[u["v"]]
+                u["v"], u["name"] = tv[k][0], tv[k][1]
+        elif accp.get("k") == "Bind":
+            whole_acc = accp["v"]
+            for u in [y for y in _walk(bodye) if y.get("k") == "Field" and _strip(y["e"]).get("k") == "Local" and _strip(y["e"]).get("v") == whole_acc and str(y.get("name")).isdigit()]:
+                k = int(u["name"])
+                if k >= n:
+                    return None
+                keep = {kk: u.get(kk) for kk in ("ty", "sp", "adj")}
+                u.clear()
+                u.update(local(k, keep.get("sp") or sp))
+                for kk, vv in keep.items():
+                    if vv is not None:
+                        u[kk] = vv
+        else:
+            return None
+        targets = {tv[k][0] for k in range(n)}
+
+        def assigns(e):
+            """statements performing (targets) = e, or None"""
+            e0 = _strip(e)
+            k_ = e0.get("k")
+            esp = e0.get("sp") or sp
+            if k_ == "Local" and whole_acc is not None and e0.get("v") == whole_acc:
+                return []
+            if k_ == "Tup" and len(e0.get("es", [])) == n:
+                outs, written = [], set()
+                for k, c in enumerate(e0["es"]):
+                    c0 = _strip(c)
+                    if c0.get("k") == "Local" and c0.get("v") == tv[k][0]:
+                        continue            # identity component
+                    if any(y.get("k") == "Local" and y.get("v") in written for y in _walk(c)):
+                        return None         # simultaneous assignment would be needed
+                    csp = c.get("sp") or esp
+                    outs.append({"k": "Semi", "e": {"k": "Assign", "l": local(k, csp), "r": c, "id": self._id(), "ty": "()", "sp": list(csp)}, "sp": list(csp)})
+                    written.add(tv[k][0])
+                return outs
+            if k_ == "If" and e0.get("else") is not None:
+                a, b = assigns(e0["then"]), assigns(e0["else"])
+                if a is None or b is None:
+                    return None
+                mk = lambda ss, src: {"k": "Block", "stmts": ss, "id": self._id(), "ty": "()", "sp": list(src.get("sp") or esp)}
+                node = {"k": "If", "cond": e0["cond"], "then": mk(a, e0["then"]), "id": self._id(), "ty": "()", "sp": list(esp)}
+                if b:
+                    node["else"] = mk(b, e0["else"])
+                return [{"k": "Expr", "e": node, "sp": list(esp)}]
+            if k_ == "Block" and e0.get("expr") is not None and not e0.get("m"):
+                tail = assigns(e0["expr"])
+                if tail is None:
+                    return None
+                return list(e0.get("stmts", [])) + tail
+            return None
+        stm = assigns(bodye)
+        if stm is None:
+            return None
+        if whole_acc is not None and any(y.get("k") == "Local" and y.get("v") == whole_acc for s_ in stm for y in _walk(s_)):
+            return None                     # the accumulator is used as a whole somewhere else
+        lets = []
+        for k in range(n):
+            v, name, ty = tv[k]
+            lsp = [sp[0], sp[1] - 0.3 + 0.001 * k, sp[0], sp[1] - 0.26]
+            ini = init["es"][k]
+            for y in _walk(ini):
+                if y.get("sp"):
+                    y["sp"] = list(lsp)
+            lets.append({"k": "Let", "pat": {"k": "Bind", "v": v, "name": name, "mut": True, "byref": False, "ty": ty}, "init": ini, "sp": lsp, "canon": "fold-acc"})
+        src_it = x["recv"]
+        bsp = list(bodye.get("sp") or sp)
+        loop = {"k": "For", "pat": cl["params"][1], "iter": src_it,
+                "body": {"k": "Block", "stmts": stm, "id": self._id(), "ty": "()", "sp": bsp},
+                "id": self._id(), "ty": "()", "sp": [sp[0], sp[1] - 0.25, sp[0], sp[1] - 0.2], "canon": "fold-loop"}
+        self.stats["fold_tuple_loops"] = self.stats.get("fold_tuple_loops", 0) + 1
+        return lets + [{"k": "Expr", "e": loop, "sp": list(loop["sp"])}]
+
     def fold_loops(self, body):
         """`let v = SRC.fold(init, |acc, p| e);`  ->  `let mut v = init; for p in SRC { v = e[acc := v]; }` and the same for a
         fold that is the value of the block or an operand of a statement (hoisted into a `let` first: SRC and the
@@ -1271,6 +1400,46 @@ class Canon:
 
     def _iter_loop(self, f):
         it = _strip(f["iter"])
+        # `for PAT in SRC.map(|p| e)`  ->  `for p in SRC { let PAT = e; .. }` (e is evaluated once per element, in order)
+        if it.get("k") == "MethodCall" and it.get("name") == "map" and it.get("fn") == "std::iter::Iterator::map" and len(it.get("args", [])) == 1 and f["body"].get("k") == "Block":
+            cl = _strip(it["args"][0])
+            if cl.get("k") == "Closure" and len(cl.get("params", [])) == 1 and not any(y.get("k") in ("Ret", "Try") for y in _walk(cl["body"])):
+                pat, cb, pre = f["pat"], cl["body"], []
+                if cb.get("k") == "Block" and cb.get("expr") is not None and not cb.get("m"):
+                    pre, cb = list(cb.get("stmts", [])), cb["expr"]
+                bsp = f["body"].get("sp") or f.get("sp") or [0, 0, 0, 0]
+                lets = None
+                cb0 = _strip(cb)
+                if pat.get("k") == "Tuple" and cb0.get("k") == "Tup" and len(cb0.get("es", [])) == len(pat.get("ps", [])) and all(q.get("k") in ("Bind", "Wild") for q in pat["ps"]):
+                    lets = []
+                    bound = set()
+                    okp = True
+                    for q, e_ in zip(pat["ps"], cb0["es"]):
+                        if any(y.get("k") == "Local" and y.get("v") in bound for y in _walk(e_)):
+                            okp = False
+                        if q.get("k") == "Bind":
+                            lets.append({"k": "Let", "pat": q, "init": e_, "sp": [bsp[0], bsp[1] + 0.0001 * (len(lets) + 1), bsp[0], bsp[1] + 0.0001 * (len(lets) + 1)], "canon": "map-elem"})
+                            bound.add(q["v"])
+                    if not okp:
+                        lets = None
+                elif pat.get("k") == "Bind":
+                    lets = [{"k": "Let", "pat": pat, "init": cb, "sp": [bsp[0], bsp[1] + 0.0001, bsp[0], bsp[1] + 0.0001], "canon": "map-elem"}]
+                if lets is not None:
+                    # `let i = i;` (the element passed through) is dropped by renaming
+                    keep = []
+                    cp = cl["params"][0]
+                    for l_ in lets:
+                        i0 = _strip(l_["init"])
+                        if cp.get("k") == "Bind" and i0.get("k") == "Local" and i0.get("v") == cp["v"] and not l_["pat"].get("mut"):
+                            for u in [y for y in _walk(f["body"]) if y.get("k") == "Local" and y.get("v") == l_["pat"]["v"]]:
+                                u["v"], u["name"] = cp["v"], cp.get("name")
+                            continue
+                        keep.append(l_)
+                    f["body"]["stmts"] = pre + keep + list(f["body"].get("stmts", []))
+                    f["pat"] = cp
+                    f["iter"] = it["recv"]
+                    self.stats["map_loops"] = self.stats.get("map_loops", 0) + 1
+                    return self._iter_loop(f)
         rev = False
         lo_extra, take = None, None
         enum = False
